@@ -30,7 +30,7 @@ func (k *c03) Setup(c *core.Ctx) (int, error) {
 }
 
 func (*c03) Finish(c *core.Ctx) {
-	c.Assume("price graphs are forests so the chain to V is unique (alternative paths are C12's business); budget per cell = (postings + revaluation days + 2) x 1e-8 + |quantity| x propagated price-truncation bound; reports are taken with --close=false")
+	c.Assume("price graphs are forests so the chain to V is unique (alternative paths are C12's business); budget per cell = (postings + revaluation days + 2) x 1e-8 + |quantity| x propagated price-truncation bound; with --close (the default, half of the reports) income/expense/equity rows and the mirror rows restart at every shown period start and Equity:Equity receives what was closed")
 }
 
 type c03Row struct {
@@ -68,7 +68,6 @@ func (k *c03) RunCase(c *core.Ctx, i int) {
 	for n := 0; n < k.combos; n++ {
 		v := info.Commodities[fr.Intn(len(info.Commodities))]
 		f := randPeriodFlags(fr, info.Dates)
-		f.Close = false
 		f.Diff = fr.Intn(4) == 0
 		if fr.Intn(2) == 0 {
 			f.From = nil // full window from the first booking
@@ -94,7 +93,7 @@ func (k *c03) RunCase(c *core.Ctx, i int) {
 				Files: map[string][]byte{"j.knut": []byte(text)}, Cmd: knutCmd(c, nil, args...)})
 			return
 		}
-		exp, moved, skip := c03Expected(j, posts, pb, v, start, periods, f.Diff, showAll)
+		exp, moved, skip := c03Expected(j, posts, pb, v, start, periods, f.Diff, showAll, f.Close)
 		c.Count("rows_not_judged_ambiguous_price_chain", len(skip))
 		why := c03Compare(string(res.Stdout), exp, skip, periods, showAll)
 		if why != "" {
@@ -118,7 +117,7 @@ type c03Key struct{ acc, com string }
 
 // c03Expected computes, per (row account, commodity or "" when aggregated), the
 // expected cells and budgets.
-func c03Expected(j *gen.Journal, posts []ref.Posting, pb *ref.PriceBook, v string, start cal.Day, periods []cal.Period, diff, showAll bool) (map[c03Key][]c03Row, int, map[c03Key]bool) {
+func c03Expected(j *gen.Journal, posts []ref.Posting, pb *ref.PriceBook, v string, start cal.Day, periods []cal.Period, diff, showAll, closing bool) (map[c03Key][]c03Row, int, map[c03Key]bool) {
 	n := len(periods)
 	exp := map[c03Key][]c03Row{}
 	// rows whose value depends on a commodity that is reachable from V through
@@ -140,6 +139,10 @@ func c03Expected(j *gen.Journal, posts []ref.Posting, pb *ref.PriceBook, v strin
 			com = ""
 		}
 		skip[c03Key{acc, com}] = true
+		if closing {
+			// what is not judged on its own row is not judged after it was closed either
+			skip[c03Key{"Equity:Equity", com}] = true
+		}
 	}
 	get := func(acc, com string) []c03Row {
 		if !showAll {
@@ -192,13 +195,14 @@ func c03Expected(j *gen.Journal, posts []ref.Posting, pb *ref.PriceBook, v strin
 			continue
 		}
 		// cumulative values per column, then diff if requested
-		cumVal := make([]*big.Rat, n)
-		cumBud := make([]*big.Rat, n)
-		cumGain := make([]*big.Rat, n)
-		cumGainBud := make([]*big.Rat, n)
 		posMoved := false
-		for col, per := range periods {
-			t := per.End
+		// at(t): value of the position at t (minus the pre-window mark), its budget, and the
+		// accumulated revaluation gain (value minus what was booked at booking-day prices)
+		at := func(t cal.Day) (val, bud, gain, gb *big.Rat) {
+			val, bud, gain, gb = new(big.Rat), new(big.Rat), new(big.Rat), new(big.Rat)
+			if t < start {
+				return
+			}
 			qT, qS := new(big.Rat), new(big.Rat)
 			np := 0
 			bookedVal := new(big.Rat) // Σ q·P(t_p) over window postings up to t
@@ -223,7 +227,6 @@ func c03Expected(j *gen.Journal, posts []ref.Posting, pb *ref.PriceBook, v strin
 					}
 				}
 			}
-			val, bud := new(big.Rat), new(big.Rat)
 			if pos.com == v {
 				val.Sub(qT, qS)
 			} else {
@@ -250,32 +253,60 @@ func c03Expected(j *gen.Journal, posts []ref.Posting, pb *ref.PriceBook, v strin
 			}
 			steps := big.NewRat(int64(np+daysUpTo(t)+2), 1)
 			bud.Add(bud, mul(steps, ref.Eps8))
-			cumVal[col], cumBud[col] = val, bud
-			gain := new(big.Rat).Sub(val, bookedVal)
-			gb := new(big.Rat).Add(bud, bookedBud)
+			gain.Sub(val, bookedVal)
+			gb.Add(bud, bookedBud)
 			gb.Add(gb, mul(steps, ref.Eps8))
-			cumGain[col], cumGainBud[col] = gain, gb
+			return
+		}
+		cumVal := make([]*big.Rat, n)
+		cumBud := make([]*big.Rat, n)
+		cumGain := make([]*big.Rat, n)
+		cumGainBud := make([]*big.Rat, n)
+		// with closing: the gain accumulated before each period start is moved to Equity:Equity there
+		preGain := make([]*big.Rat, n)
+		preGainBud := make([]*big.Rat, n)
+		for col, per := range periods {
+			cumVal[col], cumBud[col], cumGain[col], cumGainBud[col] = at(per.End)
+			_, _, preGain[col], preGainBud[col] = at(per.Start - 1)
 		}
 		if posMoved {
 			movedCount++
 		}
 		rowsA := get(pos.acc, pos.com)
-		var rowsM []c03Row
+		var rowsM, rowsE []c03Row
 		if pos.com != v {
 			rowsM = get(mirror(pos.acc), pos.com)
+			if closing {
+				rowsE = get("Equity:Equity", pos.com)
+			}
 		}
+		sub := func(a, b *big.Rat) *big.Rat { return new(big.Rat).Sub(a, b) }
+		add := func(a, b *big.Rat) *big.Rat { return new(big.Rat).Add(a, b) }
 		for col := 0; col < n; col++ {
 			val, bud := cumVal[col], cumBud[col]
 			gain, gb := cumGain[col], cumGainBud[col]
+			eq, eqb := preGain[col], preGainBud[col]
+			if closing {
+				// the mirror account only holds what accrued since the last closing
+				gain, gb = sub(gain, preGain[col]), add(gb, preGainBud[col])
+			}
 			if diff && col > 0 {
-				val = new(big.Rat).Sub(val, cumVal[col-1])
-				bud = new(big.Rat).Add(bud, cumBud[col-1])
-				gain = new(big.Rat).Sub(gain, cumGain[col-1])
-				gb = new(big.Rat).Add(gb, cumGainBud[col-1])
+				val = sub(val, cumVal[col-1])
+				bud = add(bud, cumBud[col-1])
+				prevGain, prevGb := cumGain[col-1], cumGainBud[col-1]
+				if closing {
+					prevGain, prevGb = sub(prevGain, preGain[col-1]), add(prevGb, preGainBud[col-1])
+					eq, eqb = sub(eq, preGain[col-1]), add(eqb, preGainBud[col-1])
+				}
+				gain = sub(gain, prevGain)
+				gb = add(gb, prevGb)
 			}
 			addCell(rowsA, col, val, bud)
 			if rowsM != nil {
 				addCell(rowsM, col, gain, gb)
+			}
+			if rowsE != nil {
+				addCell(rowsE, col, eq, eqb)
 			}
 		}
 	}
@@ -310,6 +341,35 @@ func c03Expected(j *gen.Journal, posts []ref.Posting, pb *ref.PriceBook, v strin
 			bud = new(big.Rat).Add(mul(abs(p.Qty), pe), ref.Eps8)
 		}
 		rows := get(p.Account, p.Com)
+		if closing && p.Account != "Equity:Equity" {
+			// closed into Equity:Equity at the start of the next shown period (at the start of
+			// the first one when the booking precedes it)
+			eqRows := get("Equity:Equity", p.Com)
+			shown := p.Date >= periods[col].Start
+			firstEq := col + 1
+			if !shown {
+				firstEq = col // == 0
+			}
+			if diff {
+				if shown {
+					addCell(rows, col, val, bud)
+					if col+1 < n {
+						addCell(rows, col+1, new(big.Rat).Neg(val), bud)
+					}
+				}
+				if firstEq < n {
+					addCell(eqRows, firstEq, val, bud)
+				}
+			} else {
+				if shown {
+					addCell(rows, col, val, bud)
+				}
+				for ci := firstEq; ci < n; ci++ {
+					addCell(eqRows, ci, val, bud)
+				}
+			}
+			continue
+		}
 		last := col
 		if !diff {
 			last = n - 1
